@@ -35,6 +35,13 @@ PA = ["a", "A", "b", "B", "ab", "c", "C", "", "AB"]
 UA = ["u/", "U/", "u/x", "v/", "V/", "v", "", "w#", "W#", "u/X"]
 
 
+def setup(ctx):
+    import numpy
+    import pandas
+
+    ctx.pd, ctx.np = pandas, numpy
+
+
 def rrec(rng):
     p, u = rng.choice(PA), rng.choice(UA)
     # synonyms in the order drawn, not sorted: the order of a record's lists is part of the record
@@ -130,8 +137,29 @@ def run_case(ctx, g, rng):
         P = set()
     else:
         P = set(rng.sample(allp + ["zz"], k=rng.randint(1, min(3, len(allp) + 1))))
-    arg = rng.choice([P, list(P), (x for x in sorted(P))])
+    # P handed over in every spelling a caller may use: set, list, one-shot iterable, dict keys, a column of a data
+    # frame (the use the method's documentation describes), an array
+    carrier = rng.choice(["set", "list", "generator", "dict-keys", "series", "series-with-string-index", "array", "tuple"])
+    S.counters[f"wl:prefixes-handed-over-as:{carrier}"] += 1
+    ordered_p = sorted(P)
+    if carrier == "set":
+        arg = set(P)
+    elif carrier == "list":
+        arg = list(P)
+    elif carrier == "generator":
+        arg = (x for x in ordered_p)
+    elif carrier == "dict-keys":
+        arg = dict.fromkeys(ordered_p).keys()
+    elif carrier == "series":
+        arg = ctx.pd.Series(ordered_p, dtype=object)
+    elif carrier == "series-with-string-index":
+        arg = ctx.pd.Series(ordered_p, index=[f"r{i}" for i in range(len(ordered_p))], dtype=object)
+    elif carrier == "array":
+        arg = ctx.np.array(ordered_p, dtype=object)
+    else:
+        arg = tuple(ordered_p)
     so = call(res.get_subconverter, arg)
+    call(res.get_subconverter, list(P))  # and once more on the same parent
     probe.note_key(key + f":sub-{style}", bool(kinds) or style != "canon")
     if so[0] == "ret":
         sub = so[1]
